@@ -753,3 +753,187 @@ func wkPkgLevelWrites(repo string) (string, error) {
 	fmt.Fprintf(&sb, "Definition gen_pkg_level_var_count : N := %d.\n", len(vars))
 	return sb.String(), nil
 }
+
+// wkCacheStores (C09): the engine keeps answers between runs -- types by name (engineState.typeByFQN), the per-run table of the
+// importer (goImporter.depTypes), imported packages (engineState.pkgCache through AddCachedPackage). Every place that stores an
+// answer is classified by what is known about the stored value at that point:
+//
+//	checked     the value was defined together with an error (`v, err := f(...)`) and the store is reached only when that error
+//	            is nil: an `if err != nil { ...; return ... }` stands between the definition and the store, or the store lies
+//	            inside `if err == nil { ... }`
+//	unchecked   defined together with an error that the store does not wait for
+//	total       defined alone (`v := f(...)`): nothing can have failed
+//	param       a parameter of the function (the callers are store sites of their own: calls of *CachedPackage methods)
+//	table-copy  the key / value of a `for k, v := range table` loop
+//	expr        anything else
+//
+// Syntactic, per function of ruleguard/engine.go and ruleguard/importer.go; stores into local maps are not listed.
+func wkCacheStores(repo string) (string, error) {
+	fset := token.NewFileSet()
+	var sites []string
+	for _, rel := range []string{"ruleguard/engine.go", "ruleguard/importer.go"} {
+		f, err := parser.ParseFile(fset, filepath.Join(repo, rel), nil, 0)
+		if err != nil {
+			return "", err
+		}
+		for _, d := range f.Decls {
+			fd, ok := d.(*ast.FuncDecl)
+			if !ok || fd.Body == nil {
+				continue
+			}
+			fname := fd.Name.Name
+			if fd.Recv != nil && len(fd.Recv.List) == 1 {
+				t := fd.Recv.List[0].Type
+				if st, ok := t.(*ast.StarExpr); ok {
+					t = st.X
+				}
+				fname = wkSrc(fset, t) + "." + fname
+			}
+			params := map[string]bool{}
+			for _, fl := range fd.Type.Params.List {
+				for _, id := range fl.Names {
+					params[id.Name] = true
+				}
+			}
+			// frames: the statement lists around the current statement, outermost first, with the index of the statement
+			// of each list that contains the current one; conds: conditions of the enclosing ifs whose BODY we are in;
+			// ranges: key / value names of the enclosing range loops
+			type frame struct {
+				list []ast.Stmt
+				at   int
+			}
+			var frames []frame
+			var conds []string
+			ranged := map[string]bool{}
+			classify := func(v ast.Expr) string {
+				id, ok := v.(*ast.Ident)
+				if !ok {
+					return "expr"
+				}
+				for fi := len(frames) - 1; fi >= 0; fi-- {
+					fr := frames[fi]
+					for si := fr.at - 1; si >= 0; si-- {
+						as, ok := fr.list[si].(*ast.AssignStmt)
+						if !ok {
+							continue
+						}
+						pos := -1
+						for li, l := range as.Lhs {
+							if lid, ok := l.(*ast.Ident); ok && lid.Name == id.Name {
+								pos = li
+							}
+						}
+						if pos < 0 {
+							continue
+						}
+						if len(as.Lhs) == 1 {
+							return "total"
+						}
+						if len(as.Lhs) != 2 || len(as.Rhs) != 1 || pos != 0 {
+							return "expr"
+						}
+						eid, ok := as.Lhs[1].(*ast.Ident)
+						if !ok || eid.Name == "_" {
+							return "unchecked"
+						}
+						// (a) a returning `if err != nil` between the definition and the statement that holds the store
+						for sj := si + 1; sj < fr.at; sj++ {
+							ifs, ok := fr.list[sj].(*ast.IfStmt)
+							if !ok || ifs.Init != nil || wkSrc(fset, ifs.Cond) != eid.Name+" != nil" || len(ifs.Body.List) == 0 {
+								continue
+							}
+							if _, ok := ifs.Body.List[len(ifs.Body.List)-1].(*ast.ReturnStmt); ok {
+								return "checked"
+							}
+						}
+						// (b) the store lies inside `if err == nil { ... }` (entered after the definition)
+						for _, c := range conds {
+							if c == eid.Name+" == nil" {
+								return "checked"
+							}
+						}
+						return "unchecked"
+					}
+				}
+				if ranged[id.Name] {
+					return "table-copy"
+				}
+				if params[id.Name] {
+					return "param"
+				}
+				return "expr"
+			}
+			var walkList func(list []ast.Stmt)
+			var walkStmt func(s ast.Stmt)
+			walkList = func(list []ast.Stmt) {
+				frames = append(frames, frame{list: list})
+				for i, s := range list {
+					frames[len(frames)-1].at = i
+					walkStmt(s)
+				}
+				frames = frames[:len(frames)-1]
+			}
+			walkStmt = func(s ast.Stmt) {
+				switch s := s.(type) {
+				case *ast.AssignStmt:
+					if len(s.Lhs) == 1 && len(s.Rhs) == 1 {
+						if ix, ok := s.Lhs[0].(*ast.IndexExpr); ok {
+							if se, ok := ix.X.(*ast.SelectorExpr); ok {
+								sites = append(sites, fname+":"+wkSrc(fset, se)+"|"+classify(s.Rhs[0]))
+							}
+						}
+					}
+				case *ast.ExprStmt:
+					if call, ok := s.X.(*ast.CallExpr); ok {
+						if se, ok := call.Fun.(*ast.SelectorExpr); ok && strings.HasSuffix(se.Sel.Name, "CachedPackage") && len(call.Args) == 2 {
+							sites = append(sites, fname+":"+wkSrc(fset, se)+"()|"+classify(call.Args[1]))
+						}
+					}
+				case *ast.BlockStmt:
+					walkList(s.List)
+				case *ast.IfStmt:
+					conds = append(conds, wkSrc(fset, s.Cond))
+					walkList(s.Body.List)
+					conds = conds[:len(conds)-1]
+					if s.Else != nil {
+						walkStmt(s.Else)
+					}
+				case *ast.ForStmt:
+					walkList(s.Body.List)
+				case *ast.RangeStmt:
+					var added []string
+					for _, e := range []ast.Expr{s.Key, s.Value} {
+						if id, ok := e.(*ast.Ident); ok && !ranged[id.Name] {
+							ranged[id.Name] = true
+							added = append(added, id.Name)
+						}
+					}
+					walkList(s.Body.List)
+					for _, n := range added {
+						delete(ranged, n)
+					}
+				case *ast.SwitchStmt:
+					walkList(s.Body.List)
+				case *ast.TypeSwitchStmt:
+					walkList(s.Body.List)
+				case *ast.CaseClause:
+					walkList(s.Body)
+				case *ast.LabeledStmt:
+					walkStmt(s.Stmt)
+				}
+			}
+			walkList(fd.Body.List)
+		}
+	}
+	var sb strings.Builder
+	sb.WriteString("(* what the engine keeps between runs: every store of an answer (types by name, the importer's per-run table, imported\n")
+	sb.WriteString("   packages) as (function:target, class) -- class: checked (reached only when the error that came with the value is nil) /\n")
+	sb.WriteString("   unchecked / total / param / table-copy / expr *)\n")
+	var pairs []string
+	for _, st := range sites {
+		i := strings.LastIndex(st, "|")
+		pairs = append(pairs, fmt.Sprintf("(%s%%string, %s%%string)", strconv.Quote(st[:i]), strconv.Quote(st[i+1:])))
+	}
+	fmt.Fprintf(&sb, "Definition gen_cache_stores : list (string * string) := [%s].\n", strings.Join(pairs, "; "))
+	return sb.String(), nil
+}
